@@ -47,6 +47,8 @@ def expr(draw):
         if p == "line_slice":
             e["has"] = [draw(st.booleans()) for _ in range(3)]
             e["k"] = draw(st.sampled_from([1, 1, 2, 3]))
+            if draw(st.integers(0, 5)) == 0:
+                e["far"] = [True, True, draw(st.integers(0, 2))]
     elif p in ("ord_get", "ord_neg", "ord_out", "ord_slice"):
         e["acc"] = draw(st.sampled_from(["depth_slice", "trace", "header"]))
         if p == "ord_slice":
@@ -81,12 +83,17 @@ def cases(draw):
         # 128*k traces: every stored header array fills whole 512-byte pages
         n_il, n_xl = draw(st.sampled_from([(8, 16), (16, 8), (4, 32), (16, 16), (2, 64)]))
         ns = min(ns, 10)
+    if draw(st.integers(0, 11)) == 5:
+        # more than 256 lines on one axis (a handful on the other, few samples)
+        many, few = 256 + draw(st.integers(1, 30)), draw(st.integers(2, 3))
+        n_il, n_xl = (many, few) if draw(st.booleans()) else (few, many)
+        ns = min(ns, 6)
     src = draw(sources.segy_source(geom="regular", dims=(n_il, n_xl), max_ns=12, allow_mid=False))
     src["ns"] = ns
     src["values"] = {"kind": "gauss", "vseed": draw(st.integers(0, 10 ** 6))}   # distinct lines: positions identifiable
     for ax, n in (("il", n_il), ("xl", n_xl)):
         step = draw(st.sampled_from([1, 1, 2, 3, 5, -1, -2, -3]))
-        lo = draw(st.one_of(st.integers(1, 3000), st.integers(LINES_FROM, 3)))
+        lo = draw(st.one_of(st.integers(1, 3000), st.integers(LINES_FROM, 3), st.integers(1, 3000), st.integers(100_000, 4_000_000)))   # (six- and seven-digit numbering too)
         src[ax] = [lo, step] if step > 0 else [lo + (-step) * (n - 1), step]
     src["delay"] = draw(st.sampled_from([0, 0, 100]))
     src["dt_us"] = draw(st.sampled_from([4000, 2000, 1000]))
@@ -144,6 +151,12 @@ def build_expr(e, S, f, g, gpath):
         a = int(ax[int(u[0] * len(ax))]) if e["has"][0] else None
         b = int(ax[int(u[1] * len(ax))]) if e["has"][1] else None
         c = int(e["k"] * inc) if e["has"][2] else None
+        if e.get("far") and inc > 0 and min(ax) > 5:
+            # bounds far outside an ascending axis of positive numbers: a range of more than 65 536 candidate
+            # numbers starting at 0, 1 or 2 (in general not congruent to the first line modulo the step)
+            stepv = abs(c) if c else 1
+            a = int(e["far"][2])
+            b = int(max(ax) + 70_000 * stepv + 1)
         th = lambda h: [np.array(x, copy=True) for x in getattr(h, acc)[a:b:c]]
         th.abc = (a, b, c)
         return f"{acc}[{a}:{b}:{c}]", th, axis
